@@ -73,7 +73,7 @@ def r_point(ctx: Ctx, model, tr):
     fi = ci.methods.get("spreading_pressure_at")
     if fi is None:
         raise AnalysisError("anchor missing: PointIsotherm.spreading_pressure_at")
-    P, L = ArraySym("P"), ArraySym("L")
+    P, L = ArraySym("P"), ArraySym("L", positive=False)     # loadings may be zero
     calls = []
     nat = tr.sym("n_at")
 
